@@ -370,7 +370,7 @@ pub fn run_property<P: Property>(ctx: &RunCtx) -> i32 {
     }
 
     // 2. exhaustive enumerations
-    if found.is_empty() {
+    if found.is_empty() && std::env::var("VERIF_SKIP_EXHAUSTIVE").is_err() {
         let mut first_fail: Option<(P::Scenario, Violation)> = None;
         let mut sink = |s: P::Scenario| {
             if first_fail.is_some() {
